@@ -1,19 +1,57 @@
 package main
 
 import (
+	"flag"
 	"fmt"
-	"golang.org/x/tools/go/packages"
-	"golang.org/x/tools/go/ssa"
-	"golang.org/x/tools/go/ssa/ssautil"
+	"os"
 )
 
 func main() {
-	cfg := &packages.Config{Mode: packages.LoadAllSyntax, Dir: "/repo"}
-	pkgs, err := packages.Load(cfg, "./...")
-	if err != nil {
-		panic(err)
+	if len(os.Args) < 2 {
+		fmt.Println("usage: vcheck run <Func> [flags] | vcheck <Cxx> --tier quick|thorough")
+		os.Exit(2)
 	}
-	prog, spkgs := ssautil.AllPackages(pkgs, ssa.InstantiateGenerics)
-	prog.Build()
-	fmt.Println(len(spkgs))
+	if os.Args[1] == "run" {
+		fs := flag.NewFlagSet("run", flag.ExitOnError)
+		intMode := fs.Bool("int", false, "int/real arithmetic mode")
+		trace := fs.Bool("trace", false, "trace instructions")
+		pkg := fs.String("pkg", "", "package dir of the harness")
+		unwind := fs.Int("unwind", 0, "loop bound")
+		steps := fs.Int("steps", 0, "move bound")
+		symb := fs.Bool("symbolic", false, "symbolic schedule")
+		to := fs.Int("timeout", 60000, "per query ms")
+		solver := fs.String("solver", "", "comma list of z3|z3-new|cvc5 (fallback chain)")
+		dump := fs.String("dump", "", "dump smt2 into dir")
+		noprune := fs.Bool("noprune", false, "no feasibility pruning")
+		fs.Parse(os.Args[3:])
+		l, err := loadRepo()
+		if err != nil {
+			fmt.Println("INCONCLUSIVE", err)
+			os.Exit(2)
+		}
+		spec := HarnessSpec{Name: os.Args[2], Func: os.Args[2], Pkg: *pkg, Int: *intMode, Unwind: *unwind, Steps: *steps, Symbolic: *symb, TimeoutMs: *to, Solver: *solver, NoPrune: *noprune}
+		r := runHarness(l, spec, *trace, *dump)
+		printResult(r, true)
+		return
+	}
+	os.Exit(checkMain(os.Args[1:]))
+}
+
+func printResult(r *HarnessResult, verbose bool) {
+	fmt.Printf("== %s: exec %d ms, solve %d ms, %d instrs, %d blocks, %d objects, %d terms, %d steps/%d cands, %d assumes, %d trivial\n",
+		r.Spec.Name, r.ExecMs, r.SolveMs, r.NInstr, r.NBlocks, r.NObjects, r.NTerms, r.NSteps, r.NCands, r.NAssumes, r.NTrivial)
+	if r.Err != "" {
+		fmt.Println("   ERROR:", r.Err)
+	}
+	for _, o := range r.Obs {
+		fmt.Printf("   [%s] %-7s %s  (%d ms %s) %s\n", o.Class, o.Result, o.ID, o.Ms, o.Solver, o.Pos)
+		if verbose && o.Result == "sat" && o.Class != "cover" {
+			fmt.Printf("        model: %v\n", o.Model)
+		}
+	}
+	if verbose {
+		for _, n := range r.Notes {
+			fmt.Println("   note:", n)
+		}
+	}
 }
